@@ -40,7 +40,11 @@ def extract(g, X):
         (hdr,) = [c for c in in_loop if len(c["holes"]) == 2]
         (end,) = [c for c in in_loop if not c["holes"] and after_serialize(c)]
         rel = 1 if re.search(r"let\s+\w+\s*=\s*self\.backend\.len\(\)\s*-\s*self\.start_offset\s*;", loop) else 0
-        xrel = 1 if re.search(r"^\s*\}\s*let\s+\w+\s*=\s*self\.backend\.len\(\)\s*-\s*self\.start_offset\s*;", after) else 0
+        # after the loop: the position recorded for the cross-reference stream object is taken relative to the header, before
+        # anything more is written (other lets may stand in between)
+        xr = re.search(r"let\s+(\w+)\s*=\s*self\.backend\.len\(\)\s*-\s*self\.start_offset\s*;", after)
+        xrel = 1 if xr and re.search(r"XRef::Raw\s*\{\s*pos:\s*" + xr.group(1) + r"\b", after) and \
+            not re.search(r"\bwrite(ln)?!|\.serialize\(", after[:xr.start()]) else 0
         # the id of the cross-reference stream object: `<promise>.get_inner().id`, spelled out or held in a local
         loc = re.search(r"let\s+(\w+)\s*=\s*\w+\.get_inner\(\)\.id\s*;", b)
         xid = r"(?:\w+\.get_inner\(\)\.id" + ("|" + loc.group(1) if loc else "") + ")"
